@@ -96,6 +96,8 @@ func (v *formatter_) GetMaximum() int {
 // Public
 
 func (v *formatter_) FormatValue(value any) (source string) {
+	v.depth_ = 0 // An earlier call may have failed part way through.
+	v.result_.Reset()
 	v.formatValue(value)
 	v.appendNewline()
 	source = v.getResult()
